@@ -23,8 +23,79 @@ def _r(rng: random.Random, lo: float, hi: float, nd: int = 4) -> float:
     return round(rng.uniform(lo, hi), nd)
 
 
+def gen_spec_oscillation_only(rng: random.Random, *, for_fit: bool = True) -> dict:
+    """A scheme without any decay megacomplex: damped oscillations (free frequency / rate) plus optional baseline.
+
+    Unlike the decay megacomplexes these builtin megacomplexes do not reject non-finite parameters themselves, so
+    an optimiser that wanders to NaN keeps getting (non-finite) evaluations instead of exceptions.
+    """
+    feats = ["oscillation-only"]
+    n_osc = rng.choice([1, 1, 2])
+    method = rng.choice(METHODS)
+    feats.append(method)
+    irf = rng.random() < 0.4
+    params: dict = {"osc": []}
+    labels, freqs, rates = [], [], []
+    for i in range(n_osc):
+        labels.append(f"osc{i + 1}")
+        params["osc"].append([f"f{i + 1}", _r(rng, 0.5, 3.0)])
+        params["osc"].append([f"r{i + 1}", _r(rng, 0.1, 0.8)])
+        freqs.append(f"osc.f{i + 1}")
+        rates.append(f"osc.r{i + 1}")
+    model: dict = {
+        "megacomplex": {"mc_osc": {"type": "damped-oscillation", "labels": labels, "frequencies": freqs, "rates": rates}},
+        "dataset": {},
+        "dataset_groups": {
+            "default": {"residual_function": rng.choice(["variable_projection", "variable_projection", "non_negative_least_squares"])}
+        },
+    }
+    mcs = ["mc_osc"]
+    if rng.random() < 0.5:
+        model["megacomplex"]["mc_base"] = {"type": "baseline", "dimension": "time"}
+        mcs.append("mc_base")
+        feats.append("baseline")
+    if irf:
+        model["irf"] = {"irf1": {"type": "gaussian", "center": "irf.center", "width": "irf.width"}}
+        params["irf"] = [["center", _r(rng, 0.2, 0.6), {"vary": False}], ["width", _r(rng, 0.15, 0.4), {"vary": False}]]
+        feats.append("irf:gaussian")
+    n_ds = rng.choice([1, 1, 2])
+    n_t, n_l = rng.randint(10, 24), rng.randint(3, 6)
+    data = {}
+    for d in range(n_ds):
+        label = f"ds{d + 1}"
+        dm: dict = {"megacomplex": list(mcs)}
+        if irf:
+            dm["irf"] = "irf1"
+        model["dataset"][label] = dm
+        data[label] = {
+            "time": [float(x) for x in np.round(np.linspace(-1.0 if irf else 0.0, 8.0, n_t), 6)],
+            "spectral": [float(x) for x in np.round(np.linspace(600, 700, n_l), 4)],
+            "seed": rng.randrange(2**31),
+            "rates": [0.4, 0.1],
+            "center": 0.4 if irf else 0.0,
+            "noise": rng.choice([0.01, 0.05]),
+            "amp": _r(rng, 0.5, 3.0),
+            "layout": rng.choice(["time-spectral", "spectral-time"]),
+            "weight": None,
+        }
+    feats.append(f"nds:{n_ds}")
+    scheme = {
+        "optimization_method": method,
+        "maximum_number_function_evaluations": rng.choice([3, 5, 8, 12]) if for_fit else 3,
+        "clp_link_tolerance": 0.0,
+        "clp_link_method": "nearest",
+        "add_svd": rng.random() < 0.5,
+        "ftol": 1e-8,
+        "gtol": 1e-8,
+        "xtol": 1e-8,
+    }
+    return {"model": model, "parameters": params, "data": data, "scheme": scheme, "features": sorted(set(feats))}
+
+
 def gen_spec(rng: random.Random, *, for_fit: bool = True, small: bool = False) -> dict:
     """Draw one scheme spec.  Every choice comes from ``rng``."""
+    if rng.random() < 0.08:
+        return gen_spec_oscillation_only(rng, for_fit=for_fit)
     feats: list[str] = []
     n_comp = rng.choice([1, 2, 2, 3]) if not small else rng.choice([1, 2])
     comps = [f"s{i + 1}" for i in range(n_comp)]
